@@ -105,7 +105,7 @@ def contents (c : Cfg) (s : St) : List Cmd :=
   s.file ++ (s.queue.flatMap (fun snap => dumpFilter c snap none)) ++ s.buffer
 
 /-- the accounting invariant between `_len`, `_skipped`, the file, the queue and the buffer -/
-def Inv (s : St) : Prop :=
+def HInv (s : St) : Prop :=
   s.len = s.file.length + s.skipped + (s.queue.map List.length).sum + s.buffer.length
 
 end JsonHist
